@@ -297,6 +297,10 @@ class GenericTypeMeta(type):
         if not isinstance(subcls, GenericTypeMeta):
             return super(GenericTypeMeta, cls_origin).__subclasscheck__(subcls)
 
+        if isinstance(subcls, _RuntimeSubclassCheckMeta) and get_args(subcls):
+            # e.g. typing_wrap[Union[Tensor, Number]] <= Funsor
+            return deep_issubclass(subcls, cls)
+
         if not super(GenericTypeMeta, cls_origin).__subclasscheck__(get_origin(subcls)):
             return False
 
